@@ -52,6 +52,12 @@ DITab == [h \in AllH |-> [n \in BOOLEAN |-> DigestInfo(h, n)]]
 DI(h, n) == DITab[h][n]
 Layouts == AllH \X BOOLEAN
 KBytes == {128, 192, 256, 384, 512}     \* modulus lengths 1024 .. 4096 bits
+\* the encoded message has the length of the modulus IN OCTETS, rounded UP: k = ceil(bits / 8) (RFC 8017, 8.2.2 / 9.2); key
+\* sizes that are no multiple of 8 are a class of their own ("odd"): the top octet of the modulus is then only partly used
+KeyBits == {1024, 1025, 1030, 1536, 2041, 2047, 2048, 3071, 3072, 4096}
+EMLen(bits) == (bits + 7) \div 8
+KeyClasses == {"mult8", "odd"}
+KeyClassOf(bits) == IF bits % 8 = 0 THEN "mult8" ELSE "odd"
 
 \* ---- sanity theorems on the constants (stated here, ASSUMEd - i.e. evaluated by TLC - in MCAttest) ----
 T_RFC        == \A h \in AllH : DI(h, TRUE) = RFCNote1[h]
@@ -60,7 +66,12 @@ T_NullIs2    == \A h \in AllH : Len(DI(h, TRUE)) = Len(DI(h, FALSE)) + 2
 \* 00 01 FF..FF 00 T can be read as (identifier, digest) in at most one way
 T_PrefixFree == \A a, b \in Layouts : a # b => ~IsPrefixOf(DI(a[1], a[2]), DI(b[1], b[2]))
 \* at every modulus length of the quantifier a full-length encoding has at least 8 padding octets
-T_PS8        == \A k \in KBytes, h \in Hashes, n \in BOOLEAN : k - 3 - Len(DI(h, n)) - HLen[h] >= 8
+T_PS8        == \A k \in KBytes \cup {EMLen(b) : b \in KeyBits}, h \in Hashes, n \in BOOLEAN : k - 3 - Len(DI(h, n)) - HLen[h] >= 8
+\* a full-length message 00 01 .. has 8 * (k - 2) + 1 significant bits, fewer than any modulus of the size: it is below the
+\* modulus for every key size, so the genuine signature of every key size exists and must be accepted; rounding k down
+\* would take a message ONE OCTET SHORT (shape short_head) for the full-length one whenever bits is no multiple of 8
+T_Fits       == \A b \in KeyBits : 8 * (EMLen(b) - 2) + 1 <= b - 1
+T_OddDiffers == \A b \in KeyBits : (KeyClassOf(b) = "odd") <=> (b \div 8 # EMLen(b))
 
 \* ---- abstract encoded message ----
 ByteClass == {"00", "01", "FF", "xx"}   \* xx: any other value, and different from the octet it replaces
@@ -190,7 +201,8 @@ Case06(kt, alg, rel, time, sf, h0, n0, mut, em) ==
      via |-> "value",           \* "value": an x509.Certificate value with the label set directly; "parsed": DER through the lenient parser
      lab |-> "",                \* the encoded label (via = "parsed"); alg is what it denotes
      sch |-> IF kt = "rsa" THEN "pkcs1" ELSE "other",
-     now |-> 0]                 \* the epoch of the call
+     now |-> 0,                 \* the epoch of the call
+     kc |-> "mult8"]            \* key-size class of the device key; the acceptance rule does not depend on it
 RandomEM == EMRec("random", "00", "00", "00", "00", "00", "00", <<>>, -1, "none", 0, "00")
 \* label x scheme cross product: a slot certificate LABELLED lab whose signature value was made by the RSA device key
 \* under scheme sch with hash hs, presented with a device certificate of chain class rel, everything parsed from DER
@@ -205,6 +217,8 @@ Init06 == /\ \/ \E h \in AllH, n \in BOOLEAN, a \in Labels, ch \in Chains :
              \/ \E lab \in LabelEncs, sch \in Schemes, hs \in Hashes \cup {"md5"}, rel \in CrossRels :
                    /\ (sch = "pss" => hs \in {"sha256", "sha384", "sha512"}) /\ (sch = "junk" => hs = "sha256")
                    /\ c = Cross06(lab, sch, hs, rel)
+             \/ \E h \in AllH, n \in BOOLEAN, a \in Labels :       \* device keys whose size is no multiple of 8
+                   c = [Case06("rsa", a, "root", "valid", "canon", h, n, "none", GoodEM(h, n)) EXCEPT !.kc = "odd"]
              \/ \E tm \in EpochTimes, a \in Labels, h \in Hashes, rel \in {"root", "otherca"} :
                    c = Case06("rsa", a, rel, tm, "canon", h, TRUE, "none", GoodEM(h, TRUE))
           /\ r = Design06(c)
